@@ -112,12 +112,16 @@ func Secret(i int) []byte {
 
 // Tester is a scripted liveness tester.
 type Tester struct {
-	Live  func(addr string, port uint16) bool
-	Calls []string
+	Live    func(addr string, port uint16) bool
+	Verdict func(addr string, port uint16) (bool, error) // when set, decides the whole (bool, error) pair
+	Calls   []string
 }
 
 func (t *Tester) PhantomIsLive(addr string, port uint16) (bool, error) {
 	t.Calls = append(t.Calls, fmt.Sprintf("%s:%d", addr, port))
+	if t.Verdict != nil {
+		return t.Verdict(addr, port)
+	}
 	if t.Live != nil && t.Live(addr, port) {
 		return true, liveness.ErrLiveHost // the values the real tester returns
 	}
